@@ -147,6 +147,23 @@ Theorem C15_flag_after_install : forall ls,
 Proof. exact flag_after_install. Qed.
 Print Assumptions C15_flag_after_install.
 
+(* The new leader's READ revision. Full-strength statement: once the callback has installed the version,
+   the committed revision stays at or above it, for every interleaving with client requests and with
+   follower reads (revision.SyncReadRevision: `if IsLeader() return`, fetch from the leader,
+   installRevision -> SetCurrentRevision) that were already past their IsLeader() check.
+   REFUTED (finding C15-F2, reproduced on the real code): the answer of the old leader may arrive after
+   the node has become leader and is installed over the new base. It holds for every run in which no
+   such late install happens after the callback's SetCurrentRevision. *)
+Theorem C15_committed_follows_refuted : ~ committed_follows_statement.
+Proof. exact committed_follows_refuted. Qed.
+Print Assumptions C15_committed_follows_refuted.
+
+Theorem C15_committed_follows_except_F2 : forall ls x,
+  node_inv x -> committed_ok x -> forallb (fun l => negb (is_sync_install l)) ls = true ->
+  committed_ok (fst (nrun x ls)).
+Proof. exact committed_follows_except. Qed.
+Print Assumptions C15_committed_follows_except_F2.
+
 (* the oracle reports code 1 only on Badger (and then only when the base is behind, by its definition) *)
 Theorem C15_oracle_code : forall c k, c15_oracle c = Some k -> k = 0 \/ (k = 1 /\ c_engine c = EBadger).
 Proof. exact c15_oracle_code. Qed.
@@ -212,3 +229,14 @@ Example C15_flag_order :
   snd (nrun node0 [NRequest; NParse 100; NRequest; NInstall; NRequest; NFlag; NRequest; NRequest])
   = [None; None; None; None; None; None; Some 101; Some 102].
 Proof. vm_compute. reflexivity. Qed.
+
+(* C15-F2 spelled out: a read passes the leader check, the node wins (version 100 installed, flag up),
+   the old leader's answer 50 arrives: committed revision 50, dealt counter still 100 *)
+Example C15_F2_witness :
+  n_lead (fst (nrun node0 [NSyncCheck; NParse 100; NInstall; NFlag; NSyncInstall 50])) = mkL 100 50.
+Proof. vm_compute. reflexivity. Qed.
+(* the hypotheses of C15_committed_follows_except_F2 hold right after the install *)
+Example C15_F2_except_inhabited :
+  let x := fst (nrun node0 [NSyncCheck; NParse 100; NInstall]) in
+  node_inv x /\ committed_ok x /\ forallb (fun l => negb (is_sync_install l)) [NFlag; NRequest] = true.
+Proof. vm_compute. repeat split; discriminate. Qed.
